@@ -89,3 +89,23 @@ Definition kept_frac (tol : R) (ds : R * R * R) : R := frac_case (face_case (sig
 (* what one input row contributes: its index paired with each coordinate triangle of the per-face kernel *)
 Definition per_face (eps : R) (x : nat * @fdata R) : list (nat * option (tri R)) :=
   map (fun t' => (fst x, Some t')) (slice_face_signs ROps eps (fd_d (snd x)) (fd_s (snd x)) (fd_m (snd x)) (fd_t (snd x))).
+
+(* ---- areas of a whole result -------------------------------------------------------------------------------------------- *)
+(* sum of the vector areas (twice, as cross products) / of their lengths over the coordinate triangles of a result *)
+Definition area_sum (l : list (option (tri R))) : vec3 R :=
+  fold_right (fun x acc => match x with Some t => vadd ROps (tri_normal t) acc | None => acc end) (V3 0 0 0) l.
+Definition norm_sum (l : list (option (tri R))) : R :=
+  fold_right (fun x acc => match x with Some t => vnorm ROps (tri_normal t) + acc | None => acc end) 0 l.
+(* all three corners count as lying on the plane, as a boolean *)
+Definition on3b (tol : R) (n o : vec3 R) (t : tri R) : bool :=
+  Rleb (- tol) (pd n o (tget t 0)) && Rleb (pd n o (tget t 0)) tol &&
+  Rleb (- tol) (pd n o (tget t 1)) && Rleb (pd n o (tget t 1)) tol &&
+  Rleb (- tol) (pd n o (tget t 2)) && Rleb (pd n o (tget t 2)) tol.
+(* how often a face is kept by the two calls (plane and flipped plane) together: twice when it is not selected or lies in
+   the plane, once otherwise (its front part by one call, its back part by the other) *)
+Definition cweight (tol : R) (n o : vec3 R) (m : bool) (t : tri R) : R :=
+  if negb m || on3b tol n o t then 2 else 1.
+Definition rows_area (tol : R) (n o : vec3 R) (rows : list (@fdata R)) : vec3 R :=
+  fold_right (fun d acc => vadd ROps (vscale ROps (cweight tol n o (fd_m d) (fd_t d)) (tri_normal (fd_t d))) acc) (V3 0 0 0) rows.
+Definition rows_norm (tol : R) (n o : vec3 R) (rows : list (@fdata R)) : R :=
+  fold_right (fun d acc => cweight tol n o (fd_m d) (fd_t d) * vnorm ROps (tri_normal (fd_t d)) + acc) 0 rows.
